@@ -62,7 +62,11 @@ def plan(tier, seed):
     else:
       d = depth
     tasks.append({"name": name, "opt": name, "depth": d,
-                  "cross_process": tier != "quick",
+                  # quick: fresh-process resume for three optimizers at crash
+                  # points 0 and 1; thorough: all optimizers, points 0, 1, T
+                  "cross_process": (tier != "quick" or name in (
+                      "ds_full", "ds_sharded", "tf_sketchy")),
+                  "cross_points": [0, 1] if tier == "quick" else [0, 1, d],
                   "profile": {"x64": False}, "weight": 2 ** d})
   return {
       "tasks": tasks,
@@ -179,7 +183,9 @@ def run_task(task):
         return
     acc.outcome("resume_bit_identical")
     acc.traces += 1
-    if task.get("cross_process") and len(hist) in (0, 1, task["depth"]):
+    if task.get("cross_process") and len(hist) in task.get(
+        "cross_points", [0, 1, task["depth"]]) and \
+        (len(hist) == 0 or hist[-1] == "gA"):
       d = tempfile.mkdtemp(prefix="c14_", dir="/tmp")
       try:
         open(os.path.join(d, "state.bin"), "wb").write(data)
@@ -187,6 +193,9 @@ def run_task(task):
                "out": os.path.join(d, "out.json")}
         json.dump(job, open(os.path.join(d, "job.json"), "w"))
         env = dict(os.environ)
+        # a restarted job is a different interpreter: in particular it has a
+        # different string-hash salt
+        env["PYTHONHASHSEED"] = str(1000 + len(hist) * 7 + len(data) % 97)
         p = subprocess.run(
             [sys.executable, "-c",
              "import sys, os; sys.path.insert(0, %r); "
